@@ -27,7 +27,7 @@ ASSUMPTIONS = ['recorded np.random.multivariate_normal arguments are what the sa
 def cases(seed, tier):
     rng = rng_for(seed, 'C12')
     out = []
-    reps = 24 if tier == 'quick' else 220
+    reps = 24 if tier == 'quick' else 1500
     for r in range(reps):
         d = int(rng.integers(2, 7))
         t = mv.random_table_spec(rng, tier, d=d, n=int(rng.choice([200, 1000])))
